@@ -41,6 +41,7 @@ func GetApparmorLogs(file io.Reader, profile string) []string {
 
 	isAppArmorLog := isAppArmorLogTemplate.Copy()
 	if profile != "" {
+		profile = regexp.QuoteMeta(profile) // The argument is a name prefix, not a pattern
 		exp := `apparmor=("DENIED"|"ALLOWED"|"AUDIT")`
 		exp = fmt.Sprintf(exp+`.* (profile="%s.*"|label="%s.*")`, profile, profile)
 		isAppArmorLog = regexp.MustCompile(exp)
